@@ -735,6 +735,7 @@ func H_C06(lg Language, n int, R int) {
 	old := {{READER}}
 	{{READER}} = r
 	got, err := NewMnemonic(n, lg)
+	verifAssert(io.Reader({{READER}}) == io.Reader(r), "call-does-not-replace-the-source")
 	{{READER}} = old
 	verifObserve("got", got)
 	verifObserveInt("delivered", r.pos)
@@ -989,6 +990,36 @@ func H_C13_seq(lg Language, n1 int, n2 int) {
 	verifAssert((e2 == nil) == valid, "second-verdict-is-history-free-spec-value")
 	ok3 := IsMnemonicValid(r2, lg)
 	verifAssert(ok3 == valid, "third-verdict-is-history-free-spec-value")
+	verifReach("end")
+}
+
+// the same sentence validated under one language and then under another (an auto-detection loop):
+// each verdict is the reference verdict for its own language
+func H_C13_xlang(lgA Language, lgB Language, n int) {
+	idx := make([]int, n)
+	words := make([]string, n)
+	for i := range idx {
+		idx[i] = verifIntRange("w"+itoa(i), 0, 2047)
+		words[i] = verifGolden(lgA, idx[i])
+	}
+	// the sentence is not also a sentence of the second language (a handful of words are shared
+	// between lists; sentences made of shared words only are outside this harness)
+	_, firstInB := verifGoldenIndex(lgB, words[0])
+	verifAssume(!firstInB)
+	m := strings.Join(words, " ")
+	verifObserve("mnemonic", m)
+	eA := CheckMnemonic(m, lgA)
+	wantA := 2
+	if specValid(idx) {
+		wantA = 0
+	}
+	verifAssert(verifVerdict(eA) == wantA, "first-language-verdict")
+	eB := CheckMnemonic(m, lgB)
+	memberB, validB := specWellFormed(lgB, words)
+	verifAssert((eB == nil) == validB, "second-language-accepts-iff-wellformed-in-that-language")
+	verifAssert(verifImplies(!memberB, verifAnd(eB != nil, verifAnd(!errors.Is(eB, ErrWordLen), !errors.Is(eB, ErrChecksumIncorrect)))), "second-language-unknown-word-error")
+	eA2 := CheckMnemonic(m, lgA)
+	verifAssert(verifVerdict(eA2) == wantA, "first-language-verdict-again")
 	verifReach("end")
 }
 
@@ -1333,6 +1364,7 @@ var verifHarnesses = map[string]func(a []int64){
 	"H_C13_entropy":     func(a []int64) { H_C13_entropy(Language(a[0]), int(a[1]), int(a[2])) },
 	"H_C13_check":       func(a []int64) { H_C13_check(Language(a[0]), int(a[1]), int(a[2])) },
 	"H_C13_seed":        func(a []int64) { H_C13_seed() },
+	"H_C13_xlang":       func(a []int64) { H_C13_xlang(Language(a[0]), Language(a[1]), int(a[2])) },
 	"H_C13_seq":         func(a []int64) { H_C13_seq(Language(a[0]), int(a[1]), int(a[2])) },
 	"H_C13_seq_gen":     func(a []int64) { H_C13_seq_gen(Language(a[0]), int(a[1]), int(a[2])) },
 	"H_C12_pair":        func(a []int64) { H_C12_pair(int(a[0]), Language(a[1]), int(a[2]), Language(a[3]), int(a[4])) },
